@@ -171,14 +171,15 @@ def to_dihypergraph(data, create_using=None):
             return H
 
     elif isinstance(data, list):
-        # edge list
-        result = from_hyperedge_list(data, create_using)
+        # edge list: the edges are (tail, head) pairs, so the network to fill is
+        # directed also when create_using is not given
+        result = from_hyperedge_list(data, empty_dihypergraph(create_using))
         if not isinstance(create_using, DiHypergraph):
             return result
 
     elif isinstance(data, dict):
         # edge dict in the form we need
-        result = from_hyperedge_dict(data, create_using)
+        result = from_hyperedge_dict(data, empty_dihypergraph(create_using))
         if not isinstance(create_using, DiHypergraph):
             return result
 
